@@ -6,6 +6,7 @@ import (
 	"encoding/json"
 	"fmt"
 	"os"
+	"strings"
 	"testing"
 	"testing/synctest"
 	"time"
@@ -71,6 +72,9 @@ func TestRigTrace(t *testing.T) {
 	conf := confTwoThreads()
 	if rc.Scenario == "2 files, 1 thread" {
 		conf = confOneThread()
+	}
+	if strings.HasPrefix(rc.Scenario, "4 files of one group") {
+		conf = confOneGroup()
 	}
 	synctest.Test(t, func(t *testing.T) {
 		r := newRig(conf, rc.Plan)
